@@ -163,9 +163,12 @@ fn _parse_with_lexer_ctx(lexer: &mut Lexer, r: &impl Resolve, ctx: Option<&Conte
         // First backup position
         let pos_bk = lexer.get_pos();
 
-        let second_lexeme = t!(lexer.next());
+        // Look ahead for `n g R`. At the end of the data `peek` yields an empty lexeme: no look-ahead, not a reference.
+        let second_lexeme = t!(lexer.peek());
+        let _ = lexer.next();
         if second_lexeme.is_integer() {
-            let third_lexeme = t!(lexer.next());
+            let third_lexeme = t!(lexer.peek());
+            let _ = lexer.next();
             if third_lexeme.equals(b"R") {
                 // It is indeed a reference to an indirect object
                 check(flags, ParseFlags::REF)?;
